@@ -6,7 +6,7 @@
    used through its contract "returns the list of components"; its body is judged by the bounded stand-in b06).
    requires  d_i >= 0, sum d_i == 2 E (handshake: the adjacency is symmetric and irreflexive, every bond is listed at both ends), 1 <= C <= V
    ensures   result == E - V + C                 (taken from the property statement)
-   Shape bound: V concrete (1..6 quick, ..12 thorough); the degrees (< 2^24), E (< 2^32) and C are symbolic integers - no molecule approaches these sizes.
+   Shape bound: V concrete (1..12 quick, ..16 thorough; the bit-vector query grows quickly with the number of summands: 0.2 s at 12, 1.8 s at 16, undecided in 60 s near 60); the degrees (< 2^24), E (< 2^32) and C are symbolic integers - no molecule approaches these sizes.
  * Rings.not_special_connectivity - the whole REAL property function runs on a receiver stub whose `_bonds` holds real `Bond` objects with a
    SYMBOLIC order in {1, 2, 3, 4, 8} (star of degree k around atom 0, k = 1..4; atoms are treated independently by the loop, shape bound k):
    ensures   key set == atom set, and m in result[n]  <=>  order(n, m) != 8        (both directions of every bond)
@@ -49,7 +49,7 @@ class _Self:
 
 def _count_cases():
     out = []
-    for v in range(1, 13):
+    for v in range(1, 17):
         dom = []
         ds = [sym_int(f'd{i}', dom=dom, bits=24) for i in range(v)]
         e = sym_int('E', dom=dom, bits=32)
@@ -90,7 +90,7 @@ def _count_cases():
             return dict(ok=r == ee - v + cc, degrees=d, bonds=ee, atoms=v, components=cc, rings_count=r, expected=ee - v + cc)
         out.append(Case(f'rings_count/equals-bonds-minus-atoms-plus-components[atoms={v}]', fn, dom,
                         lambda r, v=v, e=e, c=c: bv(r) == e.z - v + c.z, (), native, (RFILE, 'Rings.rings_count'),
-                        tier='quick' if v <= 6 else 'thorough'))
+                        tier='quick' if v <= 12 else 'thorough'))
     return out
 
 
@@ -148,6 +148,6 @@ def cases():
     out = _count_cases() + _nsc_cases()
     # vacuity guards: the postcondition `False` must be refuted on a feasible path (a contradictory `requires` would verify it); independent of
     # what the code computes, so a tree whose function is wrong for every input fails its obligation instead of tripping the canary
-    for c in (out[0], out[12]):
+    for c in (out[0], next(c for c in out if c.name.startswith('not_special_connectivity'))):
         out.append(Case(c.name + '/CANARY-false-post', c.fn, c.requires, lambda v: z3.BoolVal(False), (), None, c.target, expect_fail=True))
     return out
